@@ -24,7 +24,8 @@ Record ast := {
   ms : st;                 (* the model state *)
   chain : list nat;        (* actors inside the hand-over chain of an rlock unlock *)
   pend : list nat;         (* actors whose rlock MutexGuard::new poison read is pending *)
-  pobj : Z; robj : Z       (* object ids of the RwLock's and of rlock's poison flag (0 = not seen yet) *)
+  pobj : Z; robj : Z;      (* object ids of the RwLock's and of rlock's poison flag (0 = not seen yet) *)
+  gens : list nat          (* trace actors whose coroutine ended and whose identity was re-used (one entry per re-use) *)
 }.
 
 Definition pc_eqb (a b : pc) : bool :=
@@ -59,9 +60,10 @@ Definition op_of (v : Z) : option op :=
   match v with 1 => Some ORead | 2 => Some OTryRead | 3 => Some OWrite | 4 => Some OTryWrite | _ => None end.
 Local Close Scope Z_scope.
 
-Definition with_ms (t : ast) (s : st) : ast := {| ms := s; chain := chain t; pend := pend t; pobj := pobj t; robj := robj t |}.
-Definition with_chain (t : ast) (l : list nat) : ast := {| ms := ms t; chain := l; pend := pend t; pobj := pobj t; robj := robj t |}.
-Definition with_pend (t : ast) (l : list nat) : ast := {| ms := ms t; chain := chain t; pend := l; pobj := pobj t; robj := robj t |}.
+Definition with_ms (t : ast) (s : st) : ast := {| ms := s; chain := chain t; pend := pend t; pobj := pobj t; robj := robj t; gens := gens t |}.
+Definition with_chain (t : ast) (l : list nat) : ast := {| ms := ms t; chain := l; pend := pend t; pobj := pobj t; robj := robj t; gens := gens t |}.
+Definition with_pend (t : ast) (l : list nat) : ast := {| ms := ms t; chain := chain t; pend := l; pobj := pobj t; robj := robj t; gens := gens t |}.
+Definition with_gens (t : ast) (l : list nat) : ast := {| ms := ms t; chain := chain t; pend := pend t; pobj := pobj t; robj := robj t; gens := l |}.
 
 (* take model action [ac] provided [pre]; then require [post] of the new model state *)
 Definition take (t : ast) (pre : bool) (ac : action) (post : st -> bool) : option ast :=
@@ -73,10 +75,10 @@ Definition observe (t : ast) (ok : bool) : option ast := if ok then Some t else 
 
 (* learn / check the identity of a poison flag object *)
 Definition learn_p (t : ast) (o : Z) : option ast :=
-  if Z.eqb (pobj t) 0 then Some {| ms := ms t; chain := chain t; pend := pend t; pobj := o; robj := robj t |}
+  if Z.eqb (pobj t) 0 then Some {| ms := ms t; chain := chain t; pend := pend t; pobj := o; robj := robj t; gens := gens t |}
   else if Z.eqb (pobj t) o then Some t else None.
 Definition learn_r (t : ast) (o : Z) : option ast :=
-  if Z.eqb (robj t) 0 then Some {| ms := ms t; chain := chain t; pend := pend t; pobj := pobj t; robj := o |}
+  if Z.eqb (robj t) 0 then Some {| ms := ms t; chain := chain t; pend := pend t; pobj := pobj t; robj := o; gens := gens t |}
   else if Z.eqb (robj t) o then Some t else None.
 Definition bind (x : option ast) (f : ast -> option ast) : option ast := match x with Some t => f t | None => None end.
 
@@ -156,11 +158,21 @@ Definition accept_kind (t : ast) (k : ek) (a : nat) (obj v : Z) : option ast :=
   | KRQueue => observe t (at_rl p || mem a (chain t))
   end.
 
+(* The runtime re-uses the identity of a finished coroutine for the next one it spawns.  In the model an
+   actor that left by the cancel panic stays at Exit for ever (its blocker may still be queued), so the
+   next incarnation of trace actor a is the model actor a + 64 * (number of earlier re-uses). *)
+Definition gen_of (t : ast) (a : nat) : nat := count_occ Nat.eq_dec (gens t) a.
+Definition mactor (t : ast) (a : nat) : nat := a + 64 * gen_of t a.
 Definition accept_ev (t : ast) (e : list Z) : option ast :=
   match e with
-  | [c; a; obj; v] => match kind_of c with
-                      | Some k => accept_kind t k (Z.to_nat a) obj v
-                      | None => None end
+  | [c; a; obj; v] =>
+      let a0 := Z.to_nat a in
+      match kind_of c with
+      | Some KCall =>
+          let t1 := if pc_eqb (apc (A (ms t) (mactor t a0))) Exit then with_gens t (a0 :: gens t) else t in
+          accept_kind t1 KCall (mactor t1 a0) obj v
+      | Some k => accept_kind t k (mactor t a0) obj v
+      | None => None end
   | _ => None
   end.
 
@@ -170,7 +182,7 @@ Fixpoint accept_all (t : ast) (tr : list (list Z)) : option ast :=
   | e :: l => match accept_ev t e with Some t' => accept_all t' l | None => None end
   end.
 
-Definition ainit (p : bool) : ast := {| ms := init p; chain := []; pend := []; pobj := 0; robj := 0 |}.
+Definition ainit (p : bool) : ast := {| ms := init p; chain := []; pend := []; pobj := 0; robj := 0; gens := [] |}.
 
 (* end-of-trace monitor: the scenario ends with every guard dropped and a last try_write + drop by main:
    the model must be back in a free state (this is theorem all_dropped_lock_free observed), without wrap *)
@@ -216,7 +228,7 @@ Ltac rp :=
   | |- RP (if ?c then _ else _) => destruct c
   | |- RP (match ?x with _ => _ end) => destruct x
   | |- Reach (ms (if ?c then _ else _)) => destruct c
-  | |- Reach (ms _) => cbn [ms with_chain with_pend]; assumption
+  | |- Reach (ms _) => cbn [ms with_chain with_pend with_gens]; assumption
   end.
 
 Lemma accept_kind_RP t k a obj v : Reach (ms t) -> RP (accept_kind t k a obj v).
@@ -228,7 +240,9 @@ Lemma accept_ev_reach t e t' : Reach (ms t) -> accept_ev t e = Some t' -> Reach 
 Proof.
   intros R H. unfold accept_ev in H.
   destruct e as [|c [|a [|obj [|v [|? ?]]]]]; try discriminate.
-  destruct (kind_of c); [|discriminate]. eapply accept_kind_reach; eauto.
+  destruct (kind_of c) as [k|]; [|discriminate].
+  destruct k; try (eapply accept_kind_reach; [exact R | exact H]).
+  eapply accept_kind_reach; [|exact H]. destruct (pc_eqb _ _); cbn; exact R.
 Qed.
 
 (* every state along an accepted trace of the implementation is a reachable state of the model *)
